@@ -153,6 +153,47 @@ def gen_doc(rng):
             % (rng.choice([200, 400, 640]), 'rtl' if rtl else 'ltr', rng.choice([100, 200, 333]), body))
 
 
+def gen_empty_doc(rng):
+    """sections of empty and nearly empty blocks: height 0 / auto / small against min-height and max-height, margins that
+    may collapse through them (all non-negative, so that the no-overlap and containment clauses apply), a few with
+    padding or borders.  Aimed at the 'collapsing through' decision of block_container_layout (CSS 2.1 8.3.1: only a box
+    whose used height is zero - min-height included - lets its own margins meet)."""
+    n = [0]
+
+    def child():
+        n[0] += 1
+        st = []
+        for side in ('top', 'bottom'):
+            if rng.random() < 0.7:
+                st.append('margin-%s:%dpx' % (side, rng.choice([0, 2, 4, 6, 10, 15])))
+            if rng.random() < 0.12:
+                st.append('padding-%s:%dpx' % (side, rng.choice([0, 1, 3])))
+            if rng.random() < 0.12:
+                st.append('border-%s:%dpx solid' % (side, rng.choice([0, 1, 2])))
+        if rng.random() < 0.7:
+            st.append('height:%s' % rng.choice(['0', '0', '0px', 'auto', '5px', '20px', '0%']))
+        if rng.random() < 0.6:
+            st.append('min-height:%s' % rng.choice(['0', '10px', '20px', '7px', '50%', '1em']))
+        if rng.random() < 0.25:
+            st.append('max-height:%s' % rng.choice(['none', '0', '5px', '30px']))
+        kids = '' if rng.random() < 0.7 else rng.choice(['abc', '<div id="c%d" style="height:%dpx"></div>' % (n[0], rng.choice([0, 4]))])
+        return '<div id="e%d" style="%s">%s</div>' % (n[0], ';'.join(st), kids)
+    body = ''
+    for i in range(rng.choice([1, 2, 3])):
+        st = []
+        if rng.random() < 0.3:
+            st.append('padding:%dpx 0' % rng.choice([1, 3]))
+        if rng.random() < 0.3:
+            st.append('border-top:1px solid')
+        if rng.random() < 0.3:
+            st.append('height:%dpx' % rng.choice([40, 100]))
+        if rng.random() < 0.4:
+            st.append('margin:%dpx 0 %dpx' % (rng.choice([0, 3, 8]), rng.choice([0, 3, 8])))
+        body += '<section id="s%d" style="%s">%s</section>' % (i, ';'.join(st), ''.join(child() for _ in range(rng.choice([2, 3, 4, 5]))))
+    return ('<style>@page{size:300px 100000px;margin:0}body{margin:0;font-family:weasyprint;font-size:10px;'
+            'line-height:10px;width:200px}section{display:block}</style>' + body)
+
+
 EPS = 1e-6
 
 
@@ -251,6 +292,14 @@ def judge_geometry(recs):
         if abs(r['h'] - 10 * r['nlines']) > EPS:
             bad.append(('auto-height-is-content-height', r['eid'],
                         (r['h'], 10 * r['nlines'], decl(r, 'height'), mn, mx)))
+    # min-height (CSS 2.1 10.7): a declared px min-height under content-box sizing is a floor of the used height
+    for r in recs:
+        if r.get('sty') is None or not r['normal'] or not isnum(r['h']):
+            continue
+        mn = decl(r, 'min-height')
+        if mn and mn.endswith('px') and decl(r, 'box-sizing') in (None, 'content-box'):
+            if r['h'] < float(mn[:-2]) - EPS:
+                bad.append(('min-height-is-a-floor', r['eid'], (r['h'], mn)))
     # vertical stacking without overlap when all vertical margins are non-negative
     any_negative = any(isnum(r[k]) and r[k] < 0 for r in recs for k in ('mt', 'mb'))
     for key, ch in ([] if any_negative else kids.items()):
@@ -262,6 +311,21 @@ def judge_geometry(recs):
             b_top = b['y'] + b['mt']
             if b_top < a_bottom - EPS:
                 bad.append(('siblings-overlap', b['eid'], (a_bottom, b_top)))
+    # an in-flow child of non-zero height lies inside the content box of a parent whose height is auto (10.6.3), when no
+    # vertical margin is negative
+    for key, ch in ([] if any_negative else kids.items()):
+        p = byidx.get(key)
+        if (p is None or p.get('sty') is None or not p['normal'] or decl(p, 'height') not in (None, 'auto')
+                or decl(p, 'max-height') not in (None, 'none')
+                or not all(isnum(p[k]) for k in ('y', 'mt', 'bt', 'pt', 'h'))):
+            continue
+        p_bottom = p['y'] + p['mt'] + p['bt'] + p['pt'] + p['h']
+        for c in ch:
+            if not c['normal'] or not all(isnum(c[k]) for k in ('y', 'mt', 'mb', 'h', 'pt', 'pb', 'bt', 'bb')) or c['h'] <= EPS:
+                continue
+            c_bottom = c['y'] + c['mt'] + c['bt'] + c['pt'] + c['h'] + c['pb'] + c['bb']
+            if c_bottom > p_bottom + EPS:
+                bad.append(('auto-height-parent-contains-child', c['eid'], (c_bottom, p_bottom)))
     return bad
 
 
@@ -507,6 +571,7 @@ def check(run):
         run.oblige('corr:collapse-direct', False, str(exc))
     # ---- stream 3: renders of random block trees, judged by the geometric reading of the property
     docs = [{'html': gen_doc(rng)} for _ in range(2500 if thorough else 500)]
+    docs += [{'html': gen_empty_doc(rng)} for _ in range(1000 if thorough else 250)]
     outs = common.run_impl('impl_c05', 'render_geometry', docs, limit=60)
     nboxes = 0
     seen = set()
@@ -529,7 +594,8 @@ def check(run):
     run.count('render-geometry', len(docs), [('doc', i) for i in range(len(docs))], samples=[docs[0]['html'][:600]])
     run.stream_info('render-geometry', boxes=nboxes, patterns=len(seen),
                     rule='random trees of block boxes depth<=5, margins/paddings/borders/width/min/max/height/box-sizing '
-                         'in {auto,0,px,%,em,negative margins}, ltr/rtl; every in-flow block box judged')
+                         'in {auto,0,px,%,em,negative margins}, ltr/rtl; every in-flow block box judged; plus one third as many documents of '
+                         'empty / nearly empty blocks (height 0 / auto against min-height, max-height, collapsing margins)')
     # ---- pagination must not change the space between siblings that stay on one page
     pdocs = [gen_pdoc(rng) for _ in range(1500 if thorough else 300)]
     outs_t = common.run_impl('impl_c05', 'render_geometry', [{'html': t} for t, _, _ in pdocs], limit=60)
